@@ -103,8 +103,9 @@ theorem rhyp_prob (E : Env U Rat) (rank : UNT U → Nat) (hops : E.ops = probOps
   obtain ⟨hw1, hw2⟩ := weights_of_check E c8
   refine ⟨⟨GHyp.of_checks E c1 c2 hk, acyclic_of_check E rank c3, ?_, by rw [hops]; rfl,
     ualt_of_budet E hdet (altKeys_of_check E c5), flat_of_check E c6, leafOne_of_check E c7, ?_, ?_, ?_, ?_⟩,
-    sdisj_of_budet E hdet, c9, hf, ?_⟩
-  · rw [hops]
+    sdisj_of_budet E hdet, c9, hf, ?_, ?_⟩
+  · apply Heapq.WeakOrder.on
+    rw [hops]
     constructor
     · intro a b h
       simp only [probOps, decide_eq_true_eq, decide_eq_false_iff_not, Rat.not_lt] at h ⊢
@@ -126,5 +127,8 @@ theorem rhyp_prob (E : Env U Rat) (rank : UNT U → Nat) (hops : E.ops = probOps
     rw [hops] at h ⊢
     simp only [probOps, decide_eq_false_iff_not, Rat.not_lt] at h ⊢
     exact Rat.mul_le_mul_of_nonneg_right h (hw2 nt w hw)
+  · intro a nt w hw ha
+    rw [hops]
+    exact Rat.mul_nonneg ha (hw2 nt w hw)
 
 end PS.UHS
